@@ -1,3 +1,325 @@
 package main
 
-func registerModels(in *Interp) {}
+import (
+	"path/filepath"
+
+	"golang.org/x/tools/go/ssa"
+)
+
+func filepathClean(s string) string { return filepath.Clean(s) }
+
+func registerModels(in *Interp) {
+	registerFSModels(in)
+	registerFSTable(in)
+}
+
+// ---------------------------------------------------------------- path / file-system stubs
+
+type pathStub struct {
+	evalKind   int
+	evalResult StringVal
+	abs        StringVal
+	exists     bool
+}
+
+func cleanAbsFormula(p *Path, s StringVal) *Term {
+	n := len(s.b)
+	if n == 0 {
+		return termFalse
+	}
+	at := func(i int) *Term { return s.b[i] }
+	in := func(i int) *Term { return p.bvCmp("bvult", mkInt(int64(i)), s.n) }
+	is := func(i int, c byte) *Term { return p.bvCmp("=", at(i), mkBV(8, uint64(c))) }
+	end := func(i int) *Term { // position i is end of string or a separator
+		if i >= n {
+			return termTrue
+		}
+		return p.or(p.not(in(i)), is(i, '/'))
+	}
+	r := p.and(in(0), is(0, '/'))
+	for i := 0; i < n; i++ {
+		// no "//"
+		if i+1 < n {
+			r = p.and(r, p.not(p.andN(in(i+1), is(i, '/'), is(i+1, '/'))))
+		}
+		// no trailing '/' unless the string is "/"
+		if i > 0 {
+			last := p.bvCmp("=", s.n, mkInt(int64(i+1)))
+			r = p.and(r, p.not(p.and(last, is(i, '/'))))
+		}
+		// no "." or ".." component after a separator at i
+		if i+1 < n {
+			dot := p.andN(in(i+1), is(i, '/'), is(i+1, '.'), end(i+2))
+			r = p.and(r, p.not(dot))
+		}
+		if i+2 < n {
+			dd := p.andN(in(i+2), is(i, '/'), is(i+1, '.'), is(i+2, '.'), end(i+3))
+			r = p.and(r, p.not(dd))
+		}
+	}
+	return r
+}
+
+func byteClass(p *Path, s StringVal, ok func(b *Term) *Term) *Term {
+	r := termTrue
+	for i, b := range s.b {
+		within := p.bvCmp("bvult", mkInt(int64(i)), s.n)
+		r = p.and(r, p.implies(within, ok(b)))
+	}
+	return r
+}
+
+func inRange(p *Path, b *Term, lo, hi byte) *Term {
+	return p.and(p.bvCmp("bvuge", b, mkBV(8, uint64(lo))), p.bvCmp("bvule", b, mkBV(8, uint64(hi))))
+}
+
+func registerFSModels(in *Interp) {
+	vxExtra["vxScratch"] = func(in *Interp, p *Path, fr *Frame, a []Val, s ssa.CallInstruction) Val { return concStr("/vx/s") }
+	vxExtra["vxCleanupScratch"] = noop
+	vxExtra["vxMkSymlink"] = noop
+	vxExtra["vxCleanAbs"] = func(in *Interp, p *Path, fr *Frame, a []Val, s ssa.CallInstruction) Val {
+		return cleanAbsFormula(p, a[0].(StringVal))
+	}
+	pathByte := func(p *Path, b *Term, slash bool) *Term {
+		r := p.orN(inRange(p, b, 'a', 'z'), inRange(p, b, '0', '9'), p.bvCmp("=", b, mkBV(8, '.')), p.bvCmp("=", b, mkBV(8, '-')), p.bvCmp("=", b, mkBV(8, '_')))
+		if slash {
+			r = p.or(r, p.bvCmp("=", b, mkBV(8, '/')))
+		}
+		return r
+	}
+	vxExtra["vxPathBytes"] = func(in *Interp, p *Path, fr *Frame, a []Val, s ssa.CallInstruction) Val {
+		return byteClass(p, a[0].(StringVal), func(b *Term) *Term { return pathByte(p, b, true) })
+	}
+	vxExtra["vxSimpleName"] = func(in *Interp, p *Path, fr *Frame, a []Val, s ssa.CallInstruction) Val {
+		x := a[0].(StringVal)
+		r := byteClass(p, x, func(b *Term) *Term {
+			return p.orN(inRange(p, b, 'a', 'z'), inRange(p, b, '0', '9'), p.bvCmp("=", b, mkBV(8, '-')), p.bvCmp("=", b, mkBV(8, '_')))
+		})
+		return p.and(r, p.not(p.bvCmp("=", x.n, mkInt(0))))
+	}
+	vxExtra["vxContains"] = func(in *Interp, p *Path, fr *Frame, a []Val, s ssa.CallInstruction) Val {
+		return p.strContains(a[0].(StringVal), a[1].(StringVal))
+	}
+	in.intr["os.IsNotExist"] = func(in *Interp, p *Path, fr *Frame, a []Val, s ssa.CallInstruction) Val {
+		return mkBool(errKind(a[0]) == "notexist")
+	}
+	in.intr["github.com/cockroachdb/pebble.NewCache"] = func(in *Interp, p *Path, fr *Frame, a []Val, s ssa.CallInstruction) Val {
+		return &Pointer{model: &OpaqueVal{name: "pebble.Cache"}}
+	}
+}
+
+type pathStubBox struct{ s pathStub }
+
+// ---- symbolic file-system table (C20, C14): EvalSymlinks / Stat answers per path
+
+type fsEntry struct {
+	path   StringVal
+	kind   int // 0 resolves to target, 1 does not exist, 2 other error, 3 resolves to itself
+	target StringVal
+}
+
+type fsTable struct {
+	entries []fsEntry
+	def     int
+	cwd     StringVal
+	hasCwd  bool
+}
+
+func (p *Path) fs() *fsTable {
+	t, ok := p.stubs["fstable"].(*fsTable)
+	if !ok {
+		t = &fsTable{def: -1}
+		p.stubs["fstable"] = t
+	}
+	return t
+}
+
+func (p *Path) strIte(c *Term, a, b StringVal) StringVal {
+	if c.C {
+		if c.B {
+			return a
+		}
+		return b
+	}
+	n := len(a.b)
+	if len(b.b) > n {
+		n = len(b.b)
+	}
+	out := make([]*Term, n)
+	for i := 0; i < n; i++ {
+		var x, y *Term = mkBV(8, 0), mkBV(8, 0)
+		if i < len(a.b) {
+			x = a.b[i]
+		}
+		if i < len(b.b) {
+			y = b.b[i]
+		}
+		out[i] = p.ite(c, x, y)
+	}
+	return StringVal{b: out, n: p.ite(c, a.n, b.n)}
+}
+
+// provable: pc implies t (one solver query; unknown counts as not provable)
+func (p *Path) provable(t *Term) bool {
+	if t.C {
+		return t.B
+	}
+	r, _ := p.query(false, p.not(t))
+	return r == "unsat"
+}
+
+func cleanRelFormula(p *Path, s StringVal) *Term {
+	if len(s.b) == 0 {
+		return termFalse
+	}
+	withSlash := p.strConcat(concStr("/"), s)
+	return p.andN(p.not(p.bvCmp("=", s.n, mkInt(0))), p.not(p.bvCmp("=", s.b[0], mkBV(8, '/'))), cleanAbsFormula(p, withSlash))
+}
+
+func stripTrailingSlash(p *Path, s StringVal) StringVal {
+	// "/a/b/" -> "/a/b" ; "/" stays
+	if len(s.b) == 0 {
+		return s
+	}
+	last := p.strAt(s, p.bvBin("bvsub", s.n, mkInt(1)))
+	c := p.and(p.bvCmp("bvugt", s.n, mkInt(1)), p.bvCmp("=", last, mkBV(8, '/')))
+	r := StringVal{b: s.b, n: p.ite(c, p.bvBin("bvsub", s.n, mkInt(1)), s.n)}
+	// a leading "//" is the same place as "/"
+	if len(r.b) >= 2 {
+		dbl := p.andN(p.bvCmp("bvuge", r.n, mkInt(2)), p.bvCmp("=", r.b[0], mkBV(8, '/')), p.bvCmp("=", r.b[1], mkBV(8, '/')))
+		r = p.strIte(dbl, StringVal{b: r.b[1:], n: p.bvBin("bvsub", r.n, mkInt(1))}, r)
+	}
+	return r
+}
+
+func registerFSTable(in *Interp) {
+	vxExtra["vxFSDefault"] = func(in *Interp, p *Path, fr *Frame, a []Val, s ssa.CallInstruction) Val {
+		p.fs().def = argInt(p, a[0])
+		return nil
+	}
+	vxExtra["vxFSEntry"] = func(in *Interp, p *Path, fr *Frame, a []Val, s ssa.CallInstruction) Val {
+		t := p.fs()
+		t.entries = append(t.entries, fsEntry{path: a[0].(StringVal), kind: argInt(p, a[1]), target: a[2].(StringVal)})
+		return nil
+	}
+	vxExtra["vxSetCwd"] = func(in *Interp, p *Path, fr *Frame, a []Val, s ssa.CallInstruction) Val {
+		t := p.fs()
+		t.cwd, t.hasCwd = a[0].(StringVal), true
+		return nil
+	}
+	vxExtra["vxDirOf"] = func(in *Interp, p *Path, fr *Frame, a []Val, s ssa.CallInstruction) Val {
+		x := a[0].(StringVal)
+		idx := p.strLastIndex(x, concStr("/"))
+		return StringVal{b: x.b, n: p.ite(p.bvCmp("bvsle", idx, mkInt(0)), mkInt(1), idx)}
+	}
+	vxExtra["vxJoin2"] = func(in *Interp, p *Path, fr *Frame, a []Val, s ssa.CallInstruction) Val {
+		x, y := a[0].(StringVal), a[1].(StringVal)
+		isRoot := p.strEq(x, concStr("/"))
+		return p.strIte(isRoot, p.strConcat(concStr("/"), y), p.strConcat(p.strConcat(x, concStr("/")), y))
+	}
+	vxExtra["vxPrefer"] = func(in *Interp, p *Path, fr *Frame, a []Val, s ssa.CallInstruction) Val {
+		p.prefs = append(p.prefs, asTerm(a[0]))
+		return nil
+	}
+	lookupFS := func(in *Interp, p *Path, arg StringVal) (int, StringVal) {
+		t := p.fs()
+		if t.def < 0 && len(t.entries) == 0 {
+			p.end("unsupported", "file-system query without a scenario (vxFSEntry/vxFSDefault)")
+		}
+		q := stripTrailingSlash(p, arg)
+		for _, e := range t.entries {
+			if p.branch(p.strEq(q, e.path)) {
+				return e.kind, e.target
+			}
+		}
+		if t.def < 0 {
+			p.end("unsupported", "file-system query for a path outside the scenario")
+		}
+		return t.def, q
+	}
+	in.intr["path/filepath.EvalSymlinks"] = func(in *Interp, p *Path, fr *Frame, a []Val, s ssa.CallInstruction) Val {
+		arg := a[0].(StringVal)
+		kind, target := lookupFS(in, p, arg)
+		switch kind {
+		case 0:
+			return TupleVal{target, IfaceVal{}}
+		case 1:
+			return TupleVal{concStr(""), in.mkErr(concStr("lstat: no such file or directory"), nil, "notexist")}
+		case 3:
+			q := stripTrailingSlash(p, arg)
+			if !p.provable(p.or(cleanAbsFormula(p, q), cleanRelFormula(p, q))) {
+				p.end("unsupported", "EvalSymlinks(self) on a path not provably clean")
+			}
+			return TupleVal{q, IfaceVal{}}
+		}
+		return TupleVal{concStr(""), in.mkErr(concStr("lstat: too many links"), nil, "other")}
+	}
+	in.intr["os.Stat"] = func(in *Interp, p *Path, fr *Frame, a []Val, s ssa.CallInstruction) Val {
+		kind, _ := lookupFS(in, p, a[0].(StringVal))
+		if kind == 0 || kind == 3 {
+			return TupleVal{IfaceVal{t: errModelType, v: &Pointer{model: &OpaqueVal{name: "fileinfo"}}}, IfaceVal{}}
+		}
+		return TupleVal{IfaceVal{}, in.mkErr(concStr("stat: no such file or directory"), nil, "notexist")}
+	}
+	in.intr["os.Getwd"] = func(in *Interp, p *Path, fr *Frame, a []Val, s ssa.CallInstruction) Val {
+		t := p.fs()
+		if !t.hasCwd {
+			p.end("unsupported", "os.Getwd without vxSetCwd")
+		}
+		return TupleVal{t.cwd, IfaceVal{}}
+	}
+	cleanIntr := func(in *Interp, p *Path, fr *Frame, a []Val, s ssa.CallInstruction) Val {
+		x := a[0].(StringVal)
+		if c, ok := x.conc(); ok {
+			return concStr(filepathClean(c))
+		}
+		if p.provable(p.or(cleanAbsFormula(p, x), cleanRelFormula(p, x))) {
+			return x
+		}
+		x, _ = p.concretizeLen(x)
+		fn := s.Common().StaticCallee()
+		return in.callBody(p, fr, fn, []Val{x}, s)
+	}
+	in.intr["path/filepath.Clean"] = cleanIntr
+	in.intr["path/filepath.Join"] = func(in *Interp, p *Path, fr *Frame, a []Val, s ssa.CallInstruction) Val {
+		parts := p.sliceStrings(a[0])
+		var ne []StringVal
+		for _, x := range parts {
+			if !p.branch(p.bvCmp("=", x.n, mkInt(0))) {
+				ne = append(ne, x)
+			}
+		}
+		if len(ne) == 0 {
+			return concStr("")
+		}
+		j := ne[0]
+		for _, x := range ne[1:] {
+			j = p.strConcat(p.strConcat(j, concStr("/")), x)
+		}
+		if c, ok := j.conc(); ok {
+			return concStr(filepathClean(c))
+		}
+		if p.provable(p.or(cleanAbsFormula(p, j), cleanRelFormula(p, j))) {
+			return j
+		}
+		// "/" + "/" + x : the common unclean shape
+		if len(ne) == 2 && p.provable(p.strEq(ne[0], concStr("/"))) {
+			k := p.strConcat(concStr("/"), ne[1])
+			if p.provable(cleanAbsFormula(p, k)) {
+				return k
+			}
+		}
+		j, _ = p.concretizeLen(j)
+		cl := in.prog.ImportedPackage("path/filepath").Func("Clean")
+		return in.callBody(p, fr, cl, []Val{j}, s)
+	}
+	in.intr["path/filepath.Abs"] = func(in *Interp, p *Path, fr *Frame, a []Val, s ssa.CallInstruction) Val {
+		x := a[0].(StringVal)
+		if p.provable(cleanAbsFormula(p, x)) {
+			return TupleVal{x, IfaceVal{}}
+		}
+		fn := s.Common().StaticCallee()
+		return in.callBody(p, fr, fn, a, s)
+	}
+}
+
